@@ -636,6 +636,8 @@ fn main() {
         None => json!({}),
     };
     let tmpdir = script["tmpdir"].as_str().unwrap_or("/verif/work/tmp").to_string();
+    std::fs::create_dir_all(&tmpdir).ok();
+    cfb_verif_harness::dump::set_tmpdir(&tmpdir);
     cfb_verif_harness::watchdog::start(script["hist_limit_ms"].as_u64().unwrap_or(90_000));
     let out = std::fs::File::create(&args[2]).expect("out");
     let mut out = BufWriter::new(out);
@@ -677,6 +679,10 @@ fn main() {
         let surplus = hist["surplus"].as_bool() == Some(true);
         if surplus {
             reset.insert("surplus".into(), json!(true));
+        }
+        let namejunk = hist["namejunk"].as_bool() == Some(true);
+        if namejunk {
+            reset.insert("namejunk".into(), json!(true));
         }
         reset.insert("open_mode".into(), hist.get("open_mode").cloned().unwrap_or(json!("permissive")));
         let started = catch_unwind(AssertUnwindSafe(|| start_history(hist, &tmpdir, &dict)));
@@ -752,6 +758,9 @@ fn main() {
             let panicked = res["k"] == "panic";
             if surplus {
                 ev.insert("surplus".into(), json!(true));
+            }
+            if namejunk {
+                ev.insert("namejunk".into(), json!(true));
             }
             ev.insert("res".into(), res);
             let is_heavy = !panicked
